@@ -315,7 +315,7 @@ func main() {
 		a.Args = args
 		e := mkExec(a)
 		meta := &shell.ShellMeta{Command: a.Command, Args: args, Password: a.Password, WorkDir: dir}
-		ctx, cancel := context.WithTimeout(context.Background(), 10*time.Second)
+		ctx, cancel := context.WithTimeout(context.Background(), 60*time.Second)
 		defer cancel()
 		sess, err := e.NewSession(ctx, meta)
 		started := false
@@ -324,7 +324,7 @@ func main() {
 				started = true
 				select {
 				case <-sess.Done():
-				case <-time.After(10 * time.Second):
+				case <-time.After(60 * time.Second):
 				}
 				sess.Close()
 			} else {
